@@ -8,6 +8,7 @@ import functools
 import heapq
 import itertools
 
+from .loop import Cancel
 from .actors import (
     Item, Unorderable, AwaitableItem, PairIterable, SrcPlan, FnPlan, ALL_FLAVOURS, FN_FLAVOURS, LOGGING_FLAVOURS,
     ASYNC_FLAVOURS, CONTAINER_FLAVOURS, SYNC_FLAVOURS, _behave, keyof,
@@ -680,7 +681,12 @@ class _Tee(ToolBase):
         items = g.sprinkle(g.items())
         # an entry c >= 0 advances child c, an entry -1 - c closes it (a closed child is at its end from then on)
         order = [g.ch.draw(n) if not g.ch.chance(1, 8) else -1 - g.ch.draw(n) for _ in range((len(items) + 1) * n)]
-        return Spec("tee", [g.src(items)], [], {"n": n, "order": tuple(order)})
+        # the driver may go on with the other children after one of them has raised (an error of the source)
+        # (only over class-based sources: those go on after an error in both worlds, generators and adapted sync
+        # iterables are finished by an exception passing through them)
+        src = g.src(items)
+        carry_on = g.ch.chance(1, 2) and src.flavour in ("aiter_cls", "aiter_noclose", "aiter_full", "aiterable")
+        return Spec("tee", [src], [], {"n": n, "order": tuple(order), "carry_on": carry_on})
 
     def a(self, L, spec, S, F):
         handle = L.tee(S[0], spec.p["n"])
@@ -689,6 +695,7 @@ class _Tee(ToolBase):
         stop = ("stop",)
 
         async def driver():
+            dead = set()
             try:
                 for c in order:
                     if c < 0:
@@ -699,6 +706,11 @@ class _Tee(ToolBase):
                         item = await children[c].__anext__()
                     except StopAsyncIteration:
                         yield (c, stop)
+                    except Exception as err:
+                        if not spec.p.get("carry_on") or isinstance(err, Cancel):
+                            raise
+                        dead.add(c)
+                        yield (c, ("raised", type(err).__name__))
                     else:
                         yield (c, item)
             finally:
@@ -725,6 +737,12 @@ class _Tee(ToolBase):
                     item = next(children[c])
                 except StopIteration:
                     yield (c, stop)
+                except Exception as err:
+                    if not spec.p.get("carry_on"):
+                        raise
+                    # (a child that raised is finished: an async generator ends with the exception it lets out)
+                    closed.add(c)
+                    yield (c, ("raised", type(err).__name__))
                 else:
                     yield (c, item)
 
